@@ -233,4 +233,61 @@ theorem noServerOutcome_table (r : World.Realm) (code : UInt8) :
       · subst hc; simp
       · simp [hc]
 
+/-! ### the decision as `radsrv` takes it (`World.radsrvRoute`, the stage that follows parsing, the checks of C05 and the rewriting) -/
+
+open Rsp.World in
+/-- freeing a request touches neither a reply queue nor a server: "silently" -/
+theorem freerq_silent (w : World) (o : Nat) : (freerq w o).clients = w.clients ∧ (freerq w o).servers = w.servers := by
+  unfold freerq
+  split
+  · exact ⟨rfl, rfl⟩
+  · split
+    · exact ⟨rfl, rfl⟩
+    · unfold setRq; exact ⟨rfl, rfl⟩
+
+open Rsp.World in
+/-- **C08 (no realm, at the request).** when no configured realm matches the User-Name the request is released and nothing else
+    happens: no reply queued, nothing forwarded -/
+theorem route_no_realm (w : World) (o : Nat) (cc : CliConf) (m0 : Radmsg.Msg) (as3 : List Radmsg.Tlv) (ttlres : Int) (uname : Bytes)
+    (h : ∀ r ∈ w.realms, rxEval w.rx r.pattern (cstr uname) = false) :
+    radsrvRoute w o cc m0 as3 ttlres uname = freerq w o ∧
+    (radsrvRoute w o cc m0 as3 ttlres uname).clients = w.clients ∧ (radsrvRoute w o cc m0 as3 ttlres uname).servers = w.servers := by
+  have hn : id2realm w (cstr uname) = none := (id2realm_none_iff w (cstr uname)).2 h
+  have : radsrvRoute w o cc m0 as3 ttlres uname = freerq w o := by unfold radsrvRoute; rw [hn]
+  rw [this]; exact ⟨rfl, freerq_silent w o⟩
+
+open Rsp.World in
+/-- **C08 (no list, at the request).** the first matching realm has no server list for this kind of request: an Access-Request is
+    answered with Access-Reject carrying the ReplyMessage exactly when one is configured, an Accounting-Request with
+    Accounting-Response exactly when AccountingResponse is on, anything else only released -/
+theorem route_no_list (w : World) (o : Nat) (cc : CliConf) (m0 : Radmsg.Msg) (as3 : List Radmsg.Tlv) (ttlres : Int) (uname : Bytes) (ri : Nat)
+    (h : id2realm w (cstr uname) = some ri)
+    (hl : realmServers (w.realms.getD ri { pattern := [] }) m0.code = none) :
+    radsrvRoute w o cc m0 as3 ttlres uname =
+      match noServerOutcome (w.realms.getD ri { pattern := [] }) m0.code with
+      | .reject msg => freerq (respond w o 3 (some { t := 18, v := msg }) true) o
+      | .acctResponse => freerq (respond w o 5 none false) o
+      | .ignore => freerq w o := by
+  unfold radsrvRoute; rw [h]; simp only [hl]; rfl
+
+open Rsp.World in
+/-- **C08 (forwarded, at the request).** the first matching realm lists servers for this kind of request and `choosesrvconf` picks one
+    that is still there: the request goes on to exactly that server (C09 says which of the list it is) -/
+theorem route_forwards (w w' : World) (o : Nat) (cc : CliConf) (m0 : Radmsg.Msg) (as3 : List Radmsg.Tlv) (ttlres : Int) (uname : Bytes)
+    (ri si : Nat) (l : List Nat)
+    (h : id2realm w (cstr uname) = some ri)
+    (hl : realmServers (w.realms.getD ri { pattern := [] }) m0.code = some l)
+    (hc : choosesrv w l = (w', some si)) (hg : srvGone w' si = false) :
+    radsrvRoute w o cc m0 as3 ttlres uname = radsrvForward w' o cc m0 as3 ttlres si := by
+  unfold radsrvRoute; rw [h]; simp only [hl, hc, Option.bind, hg]; rfl
+
+open Rsp.World in
+/-- **C08 ('*', at the request).** with a `*` realm among the blocks, no User-Name - the empty one included - is left without a realm -/
+theorem star_never_unrouted (w : World) (id : Bytes) (r : World.Realm) (hr : r ∈ w.realms) (hp : r.pattern = realmPattern [42]) :
+    id2realm w id ≠ none := by
+  intro hn
+  have := (id2realm_none_iff w id).1 hn r hr
+  rw [hp, star_realm_matches_all] at this
+  exact Bool.noConfusion this
+
 end Rsp.Props.C08
